@@ -1,6 +1,8 @@
 import TTModel.C16_Leapfrog
 import TTProofs.Lemmas.C16_Shears
 import TTProofs.Lemmas.C16_Volume
+import TTProofs.Lemmas.C16_Energy
+import Mathlib.Algebra.BigOperators.Ring.Finset
 import Mathlib.Tactic.Ring
 import Mathlib.Tactic.NormNum
 import Mathlib.Tactic.FieldSimp
@@ -182,5 +184,67 @@ theorem energy_quadratic_partial (a b m eps q p : ℝ) :
   have hz : z = leapfrogWith g (eps / 2) eps (.diag fun _ => m) 1 (fun _ => q) (fun _ => p) := rfl
   simp only [hz, leapfrogWith, loop, loopBody, force_eq, negGrad, driftQ, g, H]
   ring
+
+/-- n dimensions, diagonal curvature and diagonal inverse mass matrix (the simultaneously diagonalised
+case: `A` and `M⁻¹` commute): the one-step energy error is the sum of the 1-D errors, `ε³·Σᵢ Pᵢ`. -/
+theorem energy_quadratic_diag_partial {n : ℕ} (a b m q p : Vec ℝ n) (eps : ℝ) :
+    let g : Vec ℝ n → Vec ℝ n := fun x i => -(a i * x i + b i)
+    let H : Vec ℝ n → Vec ℝ n → ℝ := fun q p =>
+      ∑ i, ((a i * q i * q i / 2 + b i * q i) + m i * p i * p i / 2)
+    let z := leapfrog g eps (.diag m) 1 q p
+    H z.1 z.2 - H q p
+      = eps ^ 3 * ∑ i, (a i * m i ^ 2 * (2 * p i - eps * (a i * q i + b i))
+          * (4 * (a i * q i + b i) + 2 * a i * eps * m i * p i
+              - a i * eps ^ 2 * m i * (a i * q i + b i)) / 32) := by
+  intro g H z
+  have hz : z = leapfrogWith g (eps / 2) eps (.diag m) 1 q p := rfl
+  simp only [H]
+  rw [← Finset.sum_sub_distrib, Finset.mul_sum]
+  refine Finset.sum_congr rfl fun i _ => ?_
+  simp only [hz, leapfrogWith, loop, loopBody, force_eq, negGrad, driftQ, g]
+  ring
+
+open Matrix in
+/-- n dimensions, ANY symmetric curvature matrix `A` and ANY symmetric (dense) inverse mass matrix `K`
+(no commutation, no positivity needed): for `U(x) = ½ x·Ax + b·x`, `H = U + ½ p·Kp`, one step of
+`leapfrog` changes the energy by exactly
+
+    ε³ · ( ¼ r·K A K p₁  +  (ε/8) p₁·K A K A K p₁ ),   r = A q + b,  p₁ = p − (ε/2) r,
+
+an explicit polynomial in `ε` with leading order `ε³` (local error `O(ε³)`, so `O(ε²)` over a fixed
+integration time once the trajectory stays bounded).
+STILL MISSING from the property's clause "the energy error shrinks quadratically with the step size":
+(1) the summation of the one-step errors over `T/ε` steps into a global `O(ε²)` bound (needs a bound on
+the trajectory, e.g. from the conserved shadow energy when `ε²‖K A‖ < 4`); (2) non-quadratic targets
+(Taylor remainder).  Both are explored on the implementation by step halving (`c16.py`). -/
+theorem energy_quadratic_dense_partial {n : ℕ} (A K : Matrix (Fin n) (Fin n) ℝ) (hA : A.IsSymm)
+    (hK : K.IsSymm) (b q p : Fin n → ℝ) (eps : ℝ) :
+    let g : Vec ℝ n → Vec ℝ n := fun x i => -((A *ᵥ x) i + b i)
+    let H : Vec ℝ n → Vec ℝ n → ℝ := fun q p =>
+      (1 / 2 * (q ⬝ᵥ (A *ᵥ q)) + b ⬝ᵥ q) + 1 / 2 * (p ⬝ᵥ (K *ᵥ p))
+    let z := leapfrog g eps (.dense fun i j => K i j) 1 q p
+    let r := A *ᵥ q + b
+    let p1 := p - (eps / 2) • r
+    H z.1 z.2 - H q p
+      = eps ^ 3 * (1 / 4 * (r ⬝ᵥ (K *ᵥ (A *ᵥ (K *ᵥ p1))))
+          + eps / 8 * (p1 ⬝ᵥ (K *ᵥ (A *ᵥ (K *ᵥ (A *ᵥ (K *ᵥ p1))))))) := by
+  intro g H z r p1
+  have hz := leapfrog_one_step_quadratic A K b q p eps
+  simp only at hz
+  have := energy_step_vec A K hA hK b q p eps
+  simp only at this
+  simp only [z, g, hz, H]
+  exact this
+
+/-- non-vacuity: a 2-D case with non-commuting `A` and `K`, non-zero error -/
+example :
+    let A : Matrix (Fin 2) (Fin 2) ℝ := !![2, 1; 1, 3]
+    let K : Matrix (Fin 2) (Fin 2) ℝ := !![1, 0; 0, 2]
+    A.IsSymm ∧ K.IsSymm ∧ A * K ≠ K * A := by
+  refine ⟨by ext i j; fin_cases i <;> fin_cases j <;> rfl,
+    by ext i j; fin_cases i <;> fin_cases j <;> rfl, ?_⟩
+  intro h
+  have := congrFun (congrFun h 0) 1
+  simp [Matrix.mul_apply, Fin.sum_univ_two] at this
 
 end TTProps.C16
